@@ -23,10 +23,15 @@ import numpy as np
 
 PROP = "C01"
 DRIVER = None
-LEAN_MODULES = ["MesaModel.Props.C01"]
+LEAN_MODULES = ["MesaModel.Props.C01", "MesaModel.Props.C01Legacy"]
 THEOREMS = ["Mesa.Rng." + t for t in (
     "C01_no_global_sites", "C01_sites_nonempty", "C01_sorted_pick_hashorder_independent",
-    "C01_shuffle_perm", "C01_shuffle_deterministic", "C01_reseed_replays", "C01_derived_carry_generator")]
+    "C01_shuffle_perm", "C01_shuffle_deterministic", "C01_reseed_replays", "C01_derived_carry_generator")] + [
+    # the hash-order and draw-count clauses proved on the models of the stochastic API themselves (not on the toy of Model/Repro.lean)
+    "Mesa.Legacy." + t for t in (
+        "C01_legacy_sorted_set_order_independent", "C01_legacy_move_to_empty_pick_order_independent",
+        "C01_legacy_move_to_empty_draws_by_size", "C01_legacy_move_to_empty_is_the_model",
+        "C01_legacy_hex_neighborhood_set_order_independent")]
 COUNTS = {"quick": 24, "thorough": 240}
 WATCHDOG = 400
 HEADER_LINES = 0
